@@ -51,7 +51,8 @@ TruthsC == {[BaseG EXCEPT !.cues = <<[s |-> tp[1], e |-> tp[2], id |-> id, notes
               \* (the last time pair lies beyond 24 h)
               tp \in {<<0, 1500>>, <<3599999, 3723004>>, <<90610123, 93600500>>}, id \in {0, 7}, nt \in {<<>>, <<1>>, <<1, 2>>}, st \in Sets,
               ls \in {<<Line1(v, rs)>> : v \in {0, 1}, rs \in RunSeqs(Stacks)}
-                     \cup {<<Line1(v, <<Run1(1, s1, 0)>>), Line1(0, <<Run1(2, s2, 0)>>)>> : v \in {0, 1}, s1 \in StacksSmall, s2 \in StacksSmall}}
+                     \* two lines, the second spoken by nobody or by the same voice as the first
+                     \cup {<<Line1(v, <<Run1(1, s1, 0)>>), Line1(v2, <<Run1(2, s2, 0)>>)>> : v \in {0, 1}, v2 \in {0, 1}, s1 \in StacksSmall, s2 \in StacksSmall}}
 
 TruthsP == {[BaseG EXCEPT !.cues = <<[SimpleCue(0, 1000) EXCEPT !.id = i1, !.notes = n1, !.lines = <<Line1(0, <<Run1(1, s1, 0)>>)>>],
                                      [SimpleCue(2000, 3000) EXCEPT !.id = i2, !.notes = n2, !.lines = <<Line1(v2, <<Run1(2, s2, 0)>>)>>]>>] :
